@@ -338,3 +338,6 @@ REWRITES = [
 MUTANTS.append(Mutant("close-omits-mailbox", RDV, "        self._tx(\"close\", mailbox=mailbox, mood=mood)", "        if mailbox == getattr(self, \"_opened_mailbox\", None):\n            self._tx(\"close\", mood=mood)\n        else:\n            self._tx(\"close\", mailbox=mailbox, mood=mood)", "C09.R4",
                       "two cooperating sites: tx_open remembers the mailbox, tx_close leaves it out when it is the remembered one - also after a reconnect",
                       also=((RDV, "    def tx_open(self, mailbox):\n", "    def tx_open(self, mailbox):\n        self._opened_mailbox = mailbox\n"),)))
+
+MUTANTS.append(Mutant("forced-reconnect-clears-ws", "src/wormhole/_rendezvous.py", "    def _stopped(self, res):\n", "    def reconnect(self):\n        if self._ws:\n            ws, self._ws = self._ws, None\n            ws.dropConnection(abort=True)\n\n    def _stopped(self, res):\n", "C09.R10", "seed C09-18"))
+MUTANTS.append(Mutant("echo-timing-pop", "src/wormhole/_rendezvous.py", "        body = hexstr_to_bytes(msg[\"body\"])  # bytes\n", "        body = hexstr_to_bytes(msg[\"body\"])  # bytes\n        if side == self._side:\n            self._sent_at.pop(phase)\n", "C09.R9", "draft of seed C09-18"))
